@@ -3,11 +3,12 @@
 records the outcome in its meta.json, and prints a table.  usage: tools/seed_run.py [--only C05] [--tier quick]"""
 import json, os, subprocess, sys, glob, re
 ROOT = os.path.dirname(os.path.dirname(os.path.abspath(__file__)))
-only = None; tier = "quick"
+only = None; tier = "quick"; match = None
 a = sys.argv[1:]
 while a:
     if a[0] == "--only": only = a[1]; a = a[2:]
     elif a[0] == "--tier": tier = a[1]; a = a[2:]
+    elif a[0] == "--match": match = a[1]; a = a[2:]
     else: a = a[1:]
 def sh(cmd, **kw): return subprocess.run(cmd, shell=True, capture_output=True, text=True, **kw)
 assert sh("git -C /repo diff --quiet").returncode == 0, "/repo is dirty"
@@ -17,6 +18,7 @@ for meta_path in sorted(glob.glob(f"{ROOT}/seeded/*/*/meta.json")):
     meta = json.load(open(meta_path))
     pid = meta["property"]
     if only and pid != only: continue
+    if match and match not in os.path.basename(d): continue
     r = sh(f"git -C /repo apply {d}/patch.diff")
     if r.returncode != 0:
         rows.append((pid, os.path.basename(d), "PATCH DOES NOT APPLY", "")); continue
